@@ -140,7 +140,8 @@ engine_prop('C17', ['C17'], {'acpc'}, set(), quick=1440,
                      'tune': {'unknown': False}})
 engine_prop('C13', ['C13'], {'opener', 'actors', 'actor', 'turn', 'bringin', 'completion'}, BET_OPS,
             directed={'ante_allin': 0.08, 'stud8': 0.06})
-engine_prop('C14', ['C14'], RUNOUT_FIELDS | {'subpots', 'pots_'}, {'RunoutCountSelection', 'BoardDealing', 'ChipsPushing', 'HoleCardsShowingOrMucking'})
+engine_prop('C14', ['C14'], RUNOUT_FIELDS | {'subpots', 'pots_'}, {'RunoutCountSelection', 'BoardDealing', 'ChipsPushing', 'HoleCardsShowingOrMucking'},
+            directed={'multirun': 0.06})
 engine_prop('C15', ['C15'], set(), ALL_OPS, directed={'chop': 0.05})
 
 
